@@ -211,7 +211,16 @@ func init() {
 				} else if c.Tape.Choose(simrt.StGen, 2, 0) == 1 {
 					// the second program is started right after the first one ended:
 					// within the same wall-clock second
+					// (... and, on a system with a coarse clock, within one clock tick:
+					// whatever the second program derives from the clock alone repeats)
 					opts.GapNS = 1000
+					if gran == 0 {
+						gran = 15e6
+						opts.ClockGran, opts.MinDur = gran, gran
+						c.Fault("coarse-clock")
+					}
+					opts2 = opts
+					opts2.GapNS = 0
 					c.Fault("runs-within-one-second")
 				}
 				inc1 := RunInc(&w1, c.Tape, nil, 0, opts)
